@@ -143,7 +143,7 @@ CLAIMED['C17'] = dict(
          'PersistentMixin is re-run once for EVERY file-system operation of every step x {error, torn write, crash '
          'before / after / inside} under two write models (unbuffered, buffered until close) - exhaustive per history; '
          'the stored file is corrupted by truncation at every byte, sampled bit flips, type/key changes, per-datatype '
-         'outdated entries (struct member missing/unknown, out of range, wrong length, ...) and an unreadable file. After each crash the file must be the previous or the new complete snapshot and a restart from the '
+         'outdated entries (struct member missing/unknown, out of range, wrong length, ...) and an unreadable file; in part of the cases 2..3 threads first change persistent parameters at the same time (every file operation a scheduling point, the file a complete snapshot after each). After each crash the file must be the previous or the new complete snapshot and a restart from the '
          'directory must restore it (configuration wins); a failed save must be retried by the next save; corrupt '
          'files never prevent module creation and unusable entries fall back individually.',
     note='Trusted: sim.fs interposer (process-crash model: completed system calls survive), dispatcher/secnode stubs. '
